@@ -24,6 +24,15 @@ LANG = {"CMU": "es", "Vietnam": "vi"}
 STYLES = ["FirstChar", "EndPoints", "All"]
 QUOTED = ['<math><mtext>"max"</mtext><mo>=</mo><mi>x</mi><mo>+</mo><mn>12</mn></math>', "<math><mi>f</mi><mo>'</mo><mo>(</mo><mi>b</mi><mo>)</mo><mo>=</mo><msup><mi>b</mi><mn>2</mn></msup></math>",
           "<math><mtext>'a' and \"b\"</mtext></math>", "<math><msup><mi>b</mi><mn>2</mn></msup><mo>-</mo><mn>4</mn><mi>a</mi><mi>c</mi></math>"]
+# numbers written with letters (hexadecimal, bases up to 36, Roman-like): the codes have rules that look at the letters of an mn /
+# mtext one by one and re-code them (CMU's hex-number rule maps a-f into the private-use area before brailling)
+HEXLIKE = [f"<math><{h}>{t.replace('L', l)}</{h}><mo>+</mo><mn>1</mn></math>" for h in ("mn", "mtext") for l in "abcdefABCDEFgZ"
+           for t in ("2L", "2LL", "12L", "2L3", "L2", "0xL", "2L.5")]
+# digits under an accent (a repeating decimal) with a typeface: the digit's number indicator meets the typeface indicator
+ACCENTED = [f"<math><mn>0</mn><mo>.</mo><mover><mn{v}>{d}</mn><mo>{a}</mo></mover><mo>+</mo><mover><mi{v}>x</mi><mo>{a}</mo></mover></math>"
+            for v in ("", " mathvariant='bold'", " mathvariant='italic'", " mathvariant='sans-serif'") for d in ("3", "12") for a in ("^", "¯", "˙")]
+ACCENTED += [f"<math><mn>0</mn><mo>&#x2062;</mo><mover><mn{v}>{d}</mn><mo>{a}</mo></mover></math>"
+             for v in ("", " mathvariant='bold'", " mathvariant='italic'") for d in ("3", "12") for a in ("^", "¯", "˙", "&#x2322;")]
 VARIANTS = ["", "bold", "italic", "script", "fraktur", "double-struck", "sans-serif", "bold-italic", "monospace"]
 
 
@@ -66,7 +75,7 @@ def run(tier):
     exprs = rng.sample(corpus, min(n_expr, len(corpus)))
     scripts = []
     for code in CELL_CODES + TEXT_CODES:
-        cases = [(e, "suite") for e in exprs + QUOTED]
+        cases = [(e, "suite") for e in exprs + QUOTED] + [(e, "letters-in-numbers") for e in HEXLIKE] + [(e, "accented-digits") for e in ACCENTED]
         for cp in sweep_chars(code, random.Random(C.seed() + len(code)), n_chars):
             ch = f"&#x{cp:X};"
             host = rng.choice(["mi", "mo", "mtext", "mn"]) if tier == "quick" else None
